@@ -13,7 +13,8 @@ from props.C04 import collect
 
 ID = "C09"
 TRUSTED = ["the in-process reference stream (real PcfgQueue + create_guesses with a collector) is what the CLI prints when nothing else is written",
-           "argparse; the OS pipe"]
+           "argparse; the OS pipe",
+           "second tie (translator): harness/translate_expand.py (ast -> Gallina, fail closed; accepted subset and what it does not model in its docstring) and the meaning coq/theories/ExpandRt.v gives to Python subscripts, slices, `if limit:` and str methods; print_guess, MarkovCracker, int() and str.upper() of one character are parameters of the generated functions"]
 ASSUMES = ["N >= 1 (the CLI rejects N < 0; N = 0 means no limit)", "--limit together with --load of an interrupted Markov level is not claimed "
            "(restore_omen does not take the limit); it is outside the runs below"]
 
@@ -286,6 +287,9 @@ def run(ctx):
             "compared with the in-process reference stream for N = 1, total-1, total, total+1, b-1/b/b+1 around sampled cumulative group boundaries "
             "b and points strictly inside groups and Markov levels; honeywords / random_walk line counts; a ruleset that cannot be loaded; static "
             "scan of every print in the guesser; non-trivial = N strictly inside a pre-terminal; distinct by (ruleset, N)")
+    # second tie to the source (translator): name the broken equality if the build lost ExpandGenProofs
+    import expand_tie
+    corr.append(expand_tie.obligation())
     return {"evaluations": dist["cli_runs"], "distinct_nontrivial": nontrivial, "rule": rule, "samples": samples,
             "corr": corr, "violations": vio, "dist": dist, "corr_explained_by_known": False}
 
